@@ -3,6 +3,8 @@
 //        become a static inline definition, so the reference must be recorded whatever the flags are now): inside a
 //        function the callee's name is appended to the current function's reference list, at file scope the function
 //        becomes a root; the node designates the function; exactly the identifier is consumed.
+//  FN 2  function() redeclaring a function: root status is never revoked.   FN 3  function() on a definition: file scope is
+//        re-entered afterwards (current_fn reset).
 //  FN 1  function() on a first declaration "f();" with every attribute combination: internal linkage iff static or
 //        (inline and not extern); a function is a root (always emitted) unless it is static inline; not a definition.
 // Ghost: hashmap_get2/hashmap_put (one-name dictionaries; dictionary semantics are C17's obligation); stand-in stub:
@@ -16,10 +18,15 @@ void *hashmap_get2(HashMap *map, char *key, int keylen) { return (bound && keyle
 void *hashmap_get(HashMap *map, char *key) { return hashmap_get2(map, key, (int)strlen(key)); }
 void hashmap_put(HashMap *map, char *key, void *val) { if (map == &FILESC.vars && key[0] == 'f' && key[1] == 0) { put_slot = val; bound = 1; } }
 char *strndup(const char *s, size_t n) { char *p = malloc(n + 1); for (size_t i = 0; i < n; i++) p[i] = s[i]; p[n] = 0; return p; }
+char *format(char *fmt, ...) { static char nm[] = ".L..0"; return nm; }           /* unique-name generator: the name itself is irrelevant here */
+void strarray_push(StringArray *arr, char *s) { if (!arr->data) { arr->data = calloc(8, sizeof(char *)); arr->capacity = 8; } ASSUME(arr->len < arr->capacity); arr->data[arr->len++] = s; }
 bool equal(Token *tok, char *op) { size_t n = strlen(op); return (size_t)tok->len == n && !memcmp(tok->loc, op, n); }
+Token *skip(Token *tok, char *op) { if (!equal(tok, op)) { ASSUME(0); } return tok->next; }
 bool consume(Token **rest, Token *tok, char *str) { if (equal(tok, str)) { *rest = tok->next; return 1; } *rest = tok; return 0; }
 static Token T[6]; static Type FT; static Token NAME;
 Type *stub_declarator(Token **rest, Token *tok, Type *ty) { *rest = &T[3]; return &FT; }
+static Node BODY;
+Node *stub_compound_stmt(Token **rest, Token *tok) { BODY = (Node){0}; BODY.kind = ND_BLOCK; *rest = &T[5]; return &BODY; }   /* '{' already skipped by the caller: consumes '}' */
 static void mk(Token *t, TokenKind k, char *s) { *t = (Token){0}; t->kind = k; t->loc = s; t->len = (int)strlen(s); t->next = t + 1; }
 _Bool nondet_bool_(void);
 void harness(void) {
@@ -41,6 +48,35 @@ void harness(void) {
   OBLIGE(inside || F.is_root, "C15.1 a function named at file scope (an initializer) becomes a root");
   OBLIGE(!inside || F.is_root == root0, "C15.1 naming a function inside a body does not change its root status");
   OBLIGE(n->kind == ND_VAR && n->var == &F && rest == &T[1], "C15.1 the identifier designates the function and exactly it is consumed");
+#elif FN == 2
+  // redeclaration by a prototype: the root status a use at file scope gave the function is never revoked
+  static Obj F; static Type FTY;
+  F = (Obj){0}; F.name = NF; F.is_function = 1; F.is_static = nondet_bool_(); F.is_inline = nondet_bool_(); F.is_definition = nondet_bool_(); F.is_root = nondet_bool_();
+  FTY = (Type){TY_FUNC, 1, 1}; FTY.return_ty = ty_int; F.ty = &FTY;
+  ASSUME(F.is_root || (F.is_static && F.is_inline));       /* reachable states: function() made it a root unless static inline */
+  VSF = (VarScope){0}; VSF.var = &F; bound = 1;
+  VarAttr attr = {0}; attr.is_static = nondet_bool_(); attr.is_inline = nondet_bool_(); attr.is_extern = nondet_bool_();
+  ASSUME(F.is_static || !attr.is_static);                  /* 'static follows non-static' is a diagnosed error */
+  mk(&T[0], TK_IDENT, "f"); mk(&T[1], TK_PUNCT, "("); mk(&T[2], TK_PUNCT, ")"); mk(&T[3], TK_PUNCT, ";"); mk(&T[4], TK_EOF, "");
+  FT = (Type){TY_FUNC, 1, 1}; FT.return_ty = ty_int; FT.name = &T[0]; FT.name_pos = &T[0];
+  _Bool root0 = F.is_root, static0 = F.is_static, inline0 = F.is_inline; scope = &FILESC; globals = &F; current_fn = 0;
+  Token *r = function(&T[0], ty_int, &attr);
+  REACH("returns");
+  OBLIGE(!(static0 && (attr.is_static || !inline0)) || F.is_static, "C15.2 a function declared static keeps internal linkage when it is declared again (C11 6.2.2p4-5)");
+  OBLIGE(!root0 || F.is_root, "C15.2 a redeclaration never revokes the root status of a function (e.g. one whose address initialises an object)");
+  OBLIGE(F.is_root || (F.is_static && F.is_inline), "C15.2 every function except a static inline one is a root (emitted unconditionally)");
+  OBLIGE(r == &T[4] && globals == &F, "C15.2 a redeclaration does not create a second object");
+#elif FN == 3
+  // a definition: once the body has been read, later file-scope text is not attributed to this function
+  VarAttr attr = {0}; attr.is_static = nondet_bool_(); attr.is_inline = nondet_bool_();
+  mk(&T[0], TK_IDENT, "f"); mk(&T[1], TK_PUNCT, "("); mk(&T[2], TK_PUNCT, ")"); mk(&T[3], TK_PUNCT, "{"); mk(&T[4], TK_PUNCT, "}"); mk(&T[5], TK_EOF, "");
+  FT = (Type){TY_FUNC, 1, 1}; FT.return_ty = ty_int; FT.name = &T[0]; FT.name_pos = &T[0];
+  bound = 0; put_slot = 0; scope = &FILESC; globals = 0; current_fn = 0; ty_char = &(Type){TY_CHAR, 1, 1};
+  Token *r = function(&T[0], ty_int, &attr);
+  REACH("returns");
+  OBLIGE(r == &T[5], "C15.2 a definition consumes its body");
+  OBLIGE(current_fn == 0, "C15.1 after a function definition the parser is at file scope again: references in later initializers are roots, not references of that function");
+  OBLIGE(scope == &FILESC, "C15.2 the function's block scope is left");
 #else
   VarAttr attr = {0}; attr.is_static = nondet_bool_(); attr.is_inline = nondet_bool_(); attr.is_extern = nondet_bool_();
   mk(&T[0], TK_IDENT, "f"); mk(&T[1], TK_PUNCT, "("); mk(&T[2], TK_PUNCT, ")"); mk(&T[3], TK_PUNCT, ";"); mk(&T[4], TK_EOF, "");
